@@ -51,8 +51,9 @@ const (
 const c13SwissquotePerShareDividend = false
 
 var (
-	c13TextsAll    = []string{"abc", `a "quoted" b`, "semi;colon", "comma, x", "Zürich — ☕", ""}
-	c13TextsLatin1 = []string{"abc", `a "quoted" b`, "semi;colon", "comma, x", "Zürich « é ¶", ""}
+	// `a #tag b` sorts after `a "quoted" b` but before `a 'quoted' b`
+	c13TextsAll    = []string{"abc", `a "quoted" b`, "semi;colon", "comma, x", "Zürich — ☕", "", "a #tag b"}
+	c13TextsLatin1 = []string{"abc", `a "quoted" b`, "semi;colon", "comma, x", "Zürich « é ¶", "", "a #tag b"}
 )
 
 func c13TextClass(t string) (string, int) {
